@@ -85,7 +85,10 @@ DefTokens(d) ==
          \o FlattenSeq([i \in 1..Len(d.branches) |->
                << SB >> \o (IF AttrFirst(d.branches[i]) THEN DepTokens(d.branches[i].dep, FALSE) \o DocTokens(d.branches[i].doc)
                             ELSE DocTokens(d.branches[i].doc) \o DepTokens(d.branches[i].dep, d.branches[i].doc = NoDoc))
-               \o << ToString(d.branches[i].idx), "->" >> \o DefTokens(d.branches[i].def) \o << SL >>])
+               \o << ToString(d.branches[i].idx), "->" >> \o DefTokens(d.branches[i].def)
+               \* a member may be followed by a semicolon and by a remark on its line
+               \o (IF "semi" \in DOMAIN d.branches[i] /\ d.branches[i].semi THEN << ";" >> ELSE <<>>)
+               \o (IF "trail" \in DOMAIN d.branches[i] /\ d.branches[i].trail # "" THEN << "//" \o d.branches[i].trail, NL >> ELSE << SL >>)])
          \o << SB, "}" >>
     [] d.k = "enum" ->
          << "enum", d.name >> \o (IF d.base = "" THEN <<>> ELSE << ":", d.base >>) \o << "{" >>
